@@ -281,6 +281,13 @@ func runC20(c *Ctx) {
 				rec.Event("SignMessage.Sign")
 				key := fmt.Sprintf("SignMessage.Sign/n=%d/%s", n, name)
 				rec.Class(key)
+				if round == 0 && v%211 == 17 {
+					st := []string{}
+					for _, sg := range m.Signatures {
+						st = append(st, fmt.Sprintf("%d bytes", len(sg.Signature)))
+					}
+					rec.Sample(key, map[string]any{"vector": name, "sign_error": errStr(err), "slots_after_call": st})
+				}
 				first := -1
 				anyEmpty := false
 				for j, f := range vec {
@@ -505,6 +512,9 @@ func runC20(c *Ctx) {
 					rec.Event("entropy-fault-cases")
 					consulted := fr.Calls > 0
 					rec.Class(fmt.Sprintf("%s/consulted=%v/err=%v", key, consulted, err != nil))
+					if round == 0 && rec.Events("entropy-fault-cases")%90 == 11 {
+						rec.Sample(key, map[string]any{"entry": entry, "alg": k.Name, "reader": rd.name, "reader_calls": fr.Calls, "bytes_delivered": fr.Read_, "sign_error": errStr(err), "bytes_returned": len(out)})
+					}
 					if consulted {
 						rec.Event("entropy-reader-consulted")
 					}
@@ -540,10 +550,7 @@ func runC20(c *Ctx) {
 				}
 			}
 		}
-		if round == 0 {
-			rec.Sample("fault-vector", map[string]any{"entry": "SignMessage.Sign", "n": 3, "vector": "ok,err+bytes,empty-zero", "expect": "error returned, slot 1 empty, MarshalCBOR fails"})
-			rec.Sample("entropy", map[string]any{"entry": "Sign1", "alg": "PS256", "reader": "fail@8", "expect": "error, no bytes"})
-		}
+
 	}
 	rec.Exhaustive = true
 	rec.Require("entropy-fault-surfaced", 50)
